@@ -8,8 +8,10 @@ level declares n with its own type int[k,k], so the symbol the occurrence was bo
 import json, os, re
 import vf, xmlgen
 
+GK = {"gline": 19, "gentry": 21}
 K = {"global": 10, "tparam": 11, "tlocal": 12, "fparam": 13, "fblock": 14, "nested": 15, "iter": 16, "quant": 17, "select": 18}
 LEVEL = {v: k for k, v in K.items()}
+LEVEL.update({v: k for k, v in GK.items()})
 
 
 # sites at which the builder's frame stack lacks a lexically enclosing scope (Scopes.tla: SH): key suffix, what, example
@@ -53,6 +55,18 @@ def render(D, keep, queries=True):
     T2 = {"name": "T2", "locations": [{"id": "id1", "name": "B"}], "init": "id1", "edges": [{"src": "id1", "dst": "id1", "guard": use(116, "%s > 0")}]}
     system = "P = T(%s%s);\nsystem P, T2;" % ("11, " if "tparam" in D else "", use(119))
     return {"decl": "\n".join(g), "templates": [T, T2], "system": system}
+
+
+def render_gantt(D, keep):
+    """model with a gantt chart for n declared at the levels D (global, line parameter, entry binder)"""
+    D = set(D)
+
+    def use(sid, fmt="%s"):
+        return fmt % ("n + %d" % sid) if sid in keep else fmt % ("cz + %d" % sid)
+    g = ["int w; const int cz = 0;"] + (["const int[10,10] n = 10;"] if "global" in D else [])
+    T = {"name": "T", "locations": [{"id": "id0", "name": "A"}], "init": "id0", "edges": []}
+    gl = "G1(%s : int[19,19]) : for (%s : int[21,21]) %s -> %s, %s -> 1;" % ("n" if "gline" in D else "zl", "n" if "gentry" in D else "ze", use(140, "%s > 0"), use(141), use(142, "%s > 0"))
+    return {"decl": "\n".join(g), "templates": [T], "system": "system T;\ngantt { %s G2 : %s -> 1; }" % (gl, use(143, "%s > 0"))}
 
 
 TK = {"global": 20, "tlocal": 22, "fblock": 24, "nested": 26}
@@ -151,7 +165,7 @@ def member_type(props, member):
 
 def walk(x, found):
     if isinstance(x, dict):
-        if x.get("k") == "PLUS" and len(x.get("c", [])) == 2 and isinstance(x["c"][1], dict) and x["c"][1].get("k") == "CONSTANT" and 101 <= x["c"][1].get("v", 0) <= 137:
+        if x.get("k") == "PLUS" and len(x.get("c", [])) == 2 and isinstance(x["c"][1], dict) and x["c"][1].get("k") == "CONSTANT" and 101 <= x["c"][1].get("v", 0) <= 143:
             found.setdefault(x["c"][1]["v"], []).append(x["c"][0])
         for v in x.values():
             walk(v, found)
@@ -228,6 +242,9 @@ def run(tier):
     cases = [e for e in mc.emitted if "d" in e]
     tcases = [e for e in mc.emitted if "td" in e]
     scases = [e for e in mc.emitted if "proc" in e]
+    gcases = [e for e in mc.emitted if "gd" in e]
+    if len(gcases) != 8 or not all(e["gagree"] for e in gcases):
+        raise vf.MachineryError("Scopes.tla: gantt universe %d cases, GAgree %s" % (len(gcases), [e["gagree"] for e in gcases][:1]))
     head2 = [e for e in mc.emitted if "tagree" in e][0]
     c.cov["spec_type_names_agree"] = head2["tagree"]
     c.cov["spec_substitution_agree"] = head2["substagree"]
@@ -252,6 +269,8 @@ def run(tier):
         jobs.append({"id": "t%d" % n, "entry": "xml_buffer", "text": xmlgen.render_xml(render_types(cs["td"], bound)), "analysis": False})
         for x in sorted(set(exp) - bound):       # a use without a type name in scope: one model per site, it has to be rejected
             jobs.append({"id": "tu%d_%d" % (n, x), "entry": "xml_buffer", "text": xmlgen.render_xml(render_types(cs["td"], bound | {x})), "analysis": False})
+    for n, cs in enumerate(gcases):
+        jobs.append({"id": "g%d" % n, "entry": "xml_buffer", "text": xmlgen.render_xml(render_gantt(cs["gd"], {140, 141, 142, 143})), "trees": True, "analysis": False})
     # the same members reached directly, through a template-local type name, as record fields and as array element / index types
     MEMBERS = [("va", "va", "va == 0"), ("vb", "vb", "vb == 0"), ("vta", "va", "vta == 0"), ("vtb", "vb", "vtb == 0"), ("vr.fa", "va", "vr.fa == 0"), ("vr.fb", "vb", "vr.fb == 0"), ("arr[0]", "vb", "arr[0] == 0")]
     sq = ["E<> %s.%s" % (e["proc"], m[2]) for e in scases for m in MEMBERS]
@@ -309,6 +328,28 @@ def run(tier):
                     if q.get("errors") or not ok:
                         c.finding("c07:site%d:%s->%s" % (sid, want, got), "with n declared at %s, the query occurrence at site %d binds to %s (errors %s); expected %s" % (D, sid, got, [e["msg"] for e in q.get("errors", [])][:2], want),
                                   dict(rep, site=sid, expected=want, got=got))
+    # ---- gantt binders
+    for n, cs in enumerate(gcases):
+        exp = {s["id"]: s["bind"] for s in cs["sites"]}
+        D = sorted(cs["gd"])
+        rg = res["g%d" % n]
+        rep = {"declared_at": D, "xml": xmlgen.render_xml(render_gantt(cs["gd"], {140, 141, 142, 143}))}
+        if rg.get("main", {}).get("outcome") != "return" or rg.get("dump", {}).get("outcome") != "return":
+            c.finding("c07:gantt:no-document", "model with a gantt chart and n declared at %s did not parse: %s" % (D, json.dumps(rg.get("main"))[:200]), rep)
+            continue
+        doc = rg["dump"]["doc"]
+        found = {}
+        walk(doc, found)
+        for sid in sorted(exp):
+            nsites += 1
+            nodes = found.get(sid, [])
+            got = sorted({level_of(x) for x in nodes}) if nodes else ["not-found"]
+            nontrivial += exp[sid] != "unknown" and len(D) > 1
+            if got != [exp[sid]]:
+                c.finding("c07:site%d:%s->%s" % (sid, exp[sid], got[0]), "gantt chart with n declared at %s: the occurrence at site %d binds to %s; the innermost preceding declaration in scope is %s" % (D, sid, got, exp[sid]),
+                          dict(rep, site=sid, expected=exp[sid], got=got))
+            if exp[sid] == "unknown" and not any("nknown_identifier" in e["msg"] for e in doc["errors"]):
+                c.finding("c07:site%d:unknown-not-reported" % sid, "gantt chart with n declared at %s: site %d has no declaration in scope but no unknown-identifier error is reported" % (D, sid), rep)
     # ---- type names
     for n, cs in enumerate(tcases):
         exp = {x["id"]: x["bind"] for x in cs["sites"]}
